@@ -500,28 +500,55 @@ func ruleScale(rule string) func(*Ctx) {
 					"a D input that reaches the integer routine without x10^p-and-round is clipped on another grid than the 64-bit counterpart")
 			}
 		}
-		// scalar parameters of InflatePathsD
+		// scalar parameters of InflatePathsD: explored (helpers the reference record does not know are read inline), so
+		// the two calls are found wherever the wrapper's body has been moved; not finding them is a failure
 		if f := c.fnOpt("InflatePathsD"); f != nil {
-			scales, _ := scaleValues(c, f)
-			for _, ci := range calls(f) {
-				switch calleeName(c, ci) {
-				case "(ClipperOffset).Execute64":
-					a := ci.Common().Args[1]
-					m, ok := a.(*ssa.BinOp)
-					good := ok && m.Op == token.MUL && ((m.X == ssa.Value(f.Params[1]) && containsVal(scales, m.Y)) || (m.Y == ssa.Value(f.Params[1]) && containsVal(scales, m.X)))
-					c.check(good, rule+".in", rule+".in:InflatePathsD:delta", ci.Pos(), "InflatePathsD", "delta is passed as delta*scale", "the offset distance handed to the integer offsetter is not delta*scale: "+a.String(),
-						"delta is a length: it must be multiplied by 10^p like the coordinates")
-				case "NewClipperOffset":
-					at := ci.Common().Args[1]
-					m, ok := at.(*ssa.BinOp)
-					good := ok && m.Op == token.MUL && ((isFieldLoad(m.X, "arcTolerance") && containsVal(scales, m.Y)) || (isFieldLoad(m.Y, "arcTolerance") && containsVal(scales, m.X)))
-					c.check(good, rule+".in", rule+".in:InflatePathsD:arcTolerance", ci.Pos(), "InflatePathsD", "arc tolerance is passed as scale*arcTolerance", "arc tolerance handed to the integer offsetter is not scale*arcTolerance: "+at.String(),
-						"arc tolerance is a length: it must be multiplied by 10^p")
-					ml := ci.Common().Args[0]
-					c.check(isFieldLoad(ml, "miterLimit"), rule+".in", rule+".in:InflatePathsD:miterLimit", ci.Pos(), "InflatePathsD", "miter limit is passed unscaled (it is a ratio)", "miter limit is not passed through unchanged: "+ml.String(),
-						"the miter limit is a ratio, not a length")
+			ex := &explorer{c: c, f: f, canon: canonParams(f, "paths", "delta", "joinType", "endType", "opts"), maxPaths: 2000,
+				atomFn: func(x string) (absVal, bool) {
+					if strings.HasPrefix(x, "(rangeindex") || strings.Contains(x, "< len(opts)") {
+						return boolVal(false), true // no options given
+					}
+					return absVal{}, false
+				}}
+			outs := ex.explore(nil)
+			isScale := func(e string) bool { return strings.Contains(e, "math.Pow(10") }
+			prod := func(e, operand string) bool { // e is operand*scale or scale*operand
+				e = strings.TrimSuffix(strings.TrimPrefix(e, "("), ")")
+				for _, sep := range []string{" * "} {
+					if k := strings.Index(e, sep); k > 0 {
+						a, b := e[:k], e[k+len(sep):]
+						if (strings.HasSuffix(a, operand) && isScale(b)) || (strings.HasSuffix(b, operand) && isScale(a)) {
+							return true
+						}
+					}
+				}
+				return false
+			}
+			var dArg, atArg, mlArg string
+			var pos token.Pos
+			for _, p := range outs {
+				if p.end != "return" {
+					continue
+				}
+				for _, cl := range p.calls {
+					switch cl.callee {
+					case "(ClipperOffset).Execute64":
+						dArg = roleArg(cl, "delta", 1).v()
+					case "NewClipperOffset":
+						atArg = roleArg(cl, "arcTolerance", 1).v()
+						mlArg = roleArg(cl, "miterLimit", 0).expr
+						if cl.instr != nil {
+							pos = cl.instr.Pos()
+						}
+					}
 				}
 			}
+			c.check(prod(dArg, "delta"), rule+".in", rule+".in:InflatePathsD:delta", pos, "InflatePathsD", "delta is passed as delta*scale", "the offset distance handed to the integer offsetter is not delta*scale: "+dArg,
+				"delta is a length: it must be multiplied by 10^p like the coordinates")
+			c.check(prod(atArg, "arcTolerance"), rule+".in", rule+".in:InflatePathsD:arcTolerance", pos, "InflatePathsD", "arc tolerance is passed as scale*arcTolerance", "arc tolerance handed to the integer offsetter is not scale*arcTolerance: "+atArg,
+				"arc tolerance is a length: it must be multiplied by 10^p")
+			c.check(strings.HasSuffix(mlArg, "miterLimit"), rule+".in", rule+".in:InflatePathsD:miterLimit", pos, "InflatePathsD", "miter limit is passed unscaled (it is a ratio)", "miter limit is not passed through unchanged: "+mlArg,
+				"the miter limit is a ratio, not a length")
 		}
 
 		// ---- SCALE.out
